@@ -131,3 +131,72 @@ func (s *syncRun) placeJunk(dah uint64, b []byte) {
 	}
 	s.w.DA.Place(dah, b)
 }
+
+// RunRetrieveBackPressure: the sync loop is busy (held inside the execution layer) for longer than any fetch
+// deadline while one DA height holds more genuine blobs than the hand-over channel has slots: the scan must
+// wait and then hand over everything - nothing at that height may be dropped, the cursor may not move on.
+func RunRetrieveBackPressure(c *Ctx) {
+	synctest.Run(func() {
+		s := newSyncRun(c, "retrieve/backpressure", 1, SyncShapes["ShapeA"], world.F{"src": "retrieve", "shape": "ShapeA", "dastart": 1})
+		defer s.finish()
+		s.full.Cfg.DA.StartHeight = 1
+		s.daH = 1
+		gate := make(chan struct{})
+		s.full.Exec.Gate = gate
+		if s.startFull() != nil {
+			return
+		}
+		m := s.full.M
+		dah := uint64(1)
+		place := func(kind string, h uint64) {
+			var blob []byte
+			if kind == "hdr" {
+				blob = HeaderBlob(s.headerOf(h))
+			} else {
+				blob = s.dataBlob(s.dataOf(h))
+			}
+			s.placed[evKey(kind, h)] = true
+			s.c.Tr.Emit("Deliver", world.F{"node": "full", "kind": kind, "h": int(h), "via": "da", "dah": int(dah)})
+			s.w.DA.Place(dah, blob)
+		}
+		place("hdr", s.ih) // the first block is applied at once: the sync loop is then held inside ExecuteTxs
+		dup := HeaderBlob(s.headerOf(s.ih + 1))
+		s.c.Tr.Emit("Deliver", world.F{"node": "full", "kind": "hdr", "h": int(s.ih + 1), "via": "da", "dah": int(dah)})
+		s.placed[evKey("hdr", s.ih+1)] = true
+		for i := 0; i < 10040; i++ { // more copies of one genuine header than the channel has slots
+			s.w.DA.Place(dah, dup)
+		}
+		for h := s.ih + 1; h <= s.top; h++ { // ... and behind them the rest of the chain, at the same DA height
+			if h > s.ih+1 {
+				place("hdr", h)
+			}
+			if len(s.dataOf(h).Txs) > 0 {
+				place("data", h)
+			}
+		}
+		s.w.DA.SetCurrent(dah)
+		s.daH = dah + 1
+		c.Tr.Emit("DAPlan", world.F{"node": "full", "last": int(dah), "start": 1})
+		select {
+		case m.VerifRetrieveCh() <- struct{}{}:
+		default:
+		}
+		synctest.Wait()
+		time.Sleep(45 * time.Second) // longer than the scan's fetch deadline
+		synctest.Wait()
+		s.full.Exec.Gate = nil
+		close(gate)
+		synctest.Wait()
+		for round := 0; round < 6 && !s.isDown(); round++ {
+			select {
+			case m.VerifRetrieveCh() <- struct{}{}:
+			default:
+			}
+			time.Sleep(1100 * time.Millisecond)
+			synctest.Wait()
+		}
+		s.full.Obs("scan")
+		s.settle()
+		c.Count("backpressure", 1)
+	})
+}
